@@ -431,6 +431,22 @@ def run(check, repo: Repo) -> None:
     # ---- R11 raw-array probe falls back on every failure ------------------------------------
     _rule_probe_handlers(check, repo)
 
+    # ---- R12 no cross-call state in the codec: caches are keyed on everything the cached value depends on --------
+    from ..domains.memo import memo_findings, persistent_containers
+    smod = repo.module(SER)
+    fns = []
+    for st in smod.tree.body:
+        if isinstance(st, (ast.FunctionDef, ast.AsyncFunctionDef)):
+            fns.append((st.name, st, None))
+        elif isinstance(st, ast.ClassDef):
+            fns += [(f"{st.name}.{f.name}", f, st.name) for f in st.body if isinstance(f, (ast.FunctionDef, ast.AsyncFunctionDef))]
+    found, n_sites = memo_findings(smod.tree, fns)
+    for node, q, msg in found:
+        check.violated("C01-R12", f"{q}: persistent cache entries are keyed on all of their inputs", msg + " — e.g. a class cache keyed by class name alone returns the class of "
+                       "another module with the same name, and the loaded object is an instance of the wrong class", smod.line(node))
+    check.holds("C01-R12", "serialize.py: no under-keyed persistent cache, no accumulating module/class state", f"{len(fns)} functions, containers {sorted(persistent_containers(smod.tree)) or 'none'}, "
+                f"{n_sites} stores", nontrivial=False) if not found else None
+
 
 def _rule_reserved_keys(check, repo: Repo, W: WriterModel, R: ReaderModel, rule: str = "C01-R3", only=None) -> None:
     mod = W.mod
